@@ -64,6 +64,8 @@ const (
 	// (index out of range [0] in Stor.Data called from version) instead of a
 	// clear "not a valid database file"
 	classF5 = "open-panic-empty-file"
+	// Repair hangs in scanner.getUpTo (lost wakeup); timing dependent
+	classHang = "repair-hang-scanner-lost-wakeup"
 )
 
 const stateLen = 36 // magic1 8 + time 8 + 2 offsets 10 + checksum 2 + magic2 8
@@ -174,9 +176,9 @@ func (w wlSpec) events() []drive.Event {
 type workload struct {
 	Name    string
 	Events  []string
-	Base    string   // path of the finished file
-	Size    int64    // its length
-	Ends    []int64  // end offset (exclusive) of every persisted state record, ascending
+	Base    string  // path of the finished file
+	Size    int64   // its length
+	Ends    []int64 // end offset (exclusive) of every persisted state record, ascending
 	Models  []*dbmodel.DB
 	Markers []int64 // end offsets of the shutdown markers written by clean closes
 }
@@ -692,8 +694,15 @@ func (r *runner) runBatch(wl *workload, cases []caseID) {
 			return
 		}
 		if hung && started > done {
-			r.account(cases[started], verdict{Msg: fmt.Sprintf("the recovery sequence did not terminate within %v; goroutine dump: %s",
-				hangTimeout, tailStr(stderr.String(), 6000))})
+			class := ""
+			if dump := stderr.String(); strings.Contains(dump, "(*scanner).getUpTo") && strings.Contains(dump, "sync.(*Cond).Wait") {
+				// repair.go scanner: done is set and the condition signalled without
+				// holding the lock, so getUpTo can miss the last wakeup (a race, seen
+				// only under heavy machine load)
+				class = classHang
+			}
+			r.account(cases[started], verdict{Class: class, Msg: fmt.Sprintf("the recovery sequence did not terminate within %v; goroutine dump: %s",
+				hangTimeout, headStr(stderr.String(), 9000))})
 			cases = cases[started+1:]
 			continue
 		}
@@ -873,4 +882,11 @@ func main() {
 		Procs: 16, ProcMaxProcs: 2,
 		Run: run, Replay: replay,
 	})
+}
+
+func headStr(s string, n int) string {
+	if len(s) > n {
+		return s[:n]
+	}
+	return s
 }
